@@ -88,6 +88,7 @@ func driverSnap(c *Ctx) {
 		}
 		g := c.gen(i)
 		g.NoDigits = true
+		g.Ladder, g.LadderTo = 25, 129
 		es := 0
 		var t *GItem
 		switch g.pick(4) {
@@ -325,6 +326,7 @@ func driverFill(c *Ctx) {
 			continue
 		}
 		g := c.gen(i)
+		g.Ladder, g.LadderTo = 25, 129
 		tmpl := g.tree(1+g.pick(3), true)
 		direct := map[string]*GItem{}
 		sigma := g.fillValues(tmpl, direct)
